@@ -5,6 +5,7 @@
 //!   rl_harness run                                    -> reads ops on stdin, answers on stdout
 //!   rl_harness dump <what>                            -> table dumps for the translator (C07)
 mod dates;
+mod duals;
 mod hols;
 mod rng;
 
@@ -13,6 +14,7 @@ use std::io::{BufRead, BufWriter, Write};
 pub struct State {
     pub dates: dates::DateState,
     pub hols: hols::HolState,
+    pub duals: duals::DualState,
 }
 
 fn run() {
@@ -24,6 +26,7 @@ fn run() {
     let mut st = State {
         dates: dates::DateState::default(),
         hols: hols::HolState::default(),
+        duals: duals::DualState::default(),
     };
     for line in stdin.lock().lines() {
         let line = line.unwrap();
@@ -36,9 +39,13 @@ fn run() {
 fn step(st: &mut State, toks: &[&str]) -> String {
     if toks == ["reset"] {
         st.dates = dates::DateState::default();
+        st.duals = duals::DualState::default();
         return "ok".to_string();
     }
     if let Some(a) = dates::step(&mut st.dates, toks) {
+        return a;
+    }
+    if let Some(a) = duals::step(&mut st.duals, toks) {
         return a;
     }
     if let Some(a) = hols::step(&mut st.hols, toks) {
@@ -59,6 +66,10 @@ fn main() {
             let mut out = BufWriter::with_capacity(1 << 20, stdout.lock());
             let thorough = tier == "thorough";
             match prop {
+                "C03" => duals::gen_c03(&mut out, thorough, seed),
+                "C17" => duals::gen_c17(&mut out, thorough, seed),
+                "C18" => duals::gen_c18(&mut out, thorough, seed),
+                "C19" => duals::gen_c19(&mut out, thorough, seed),
                 "C04" => dates::gen_c04(&mut out, thorough, seed),
                 "C05" => dates::gen_c05(&mut out, thorough, seed),
                 "C06" => dates::gen_c06(&mut out, thorough, seed),
